@@ -611,6 +611,9 @@ def _is_capacity(ctx, r, nid, t, field='max_capacity'):
     return ctx.cache[key]
 
 
+from .rules_flow import _has_counters as _hc
+
+
 def rule_cmp_evict(ctx):
     r = RuleResult('CMP-evict', 'both over-capacity eviction loops stop as soon as evicted >= weights_to_evict (with weights_to_evict = weighted_size '
                    'saturating_sub max_capacity, 0 when unbounded), remove the node at the FRONT of the probation deque, and add each removed '
@@ -761,7 +764,7 @@ def rule_cmp_evict(ctx):
                     excess = [a for a in ev[2] if has_call(a, tuple(wte_like)) or 'saturating_sub' in fmt(a)]
                     wte_i = [i for i, e in enumerate(p.events[:ev_i[0]]) if e[0] == 'call' and e[1] in wte_like]
                     mut_i = [i for i, e in enumerate(p.events[:ev_i[0]]) if e[0] == 'call' and e[1] in prog.bodies and e[1] not in wte_like and
-                             any('EvictionCounters' in l['ty']['s'] and l['ty']['s'].startswith('&mut') for l in prog.bodies[e[1]].locals[1:prog.bodies[e[1]].argc + 1])]
+                             any(_hc(ctx, l['ty']['s']) and l['ty']['s'].startswith('&mut') for l in prog.bodies[e[1]].locals[1:prog.bodies[e[1]].argc + 1])]
                     fresh = bool(wte_i) and (not mut_i or max(wte_i) > max(mut_i))
                     r.instance(function=m, excess_computed_after_last_counter_change=fresh)
                     if not fresh:
